@@ -701,7 +701,7 @@ def correspond(ctx):
                 ccls.append(f"all-cuts/{min(nf, 10)}frames")
                 ncuts += len(lines) + 1
             else:
-                for k in sorted(rng.sample(range(len(lines)), ctx.n(40, 200))):
+                for k in sorted(rng.sample(range(len(lines)), min(len(lines), ctx.n(40, 200)))):
                     reqs.append(f"traj {fmt} {mode} {tokens(fmt, lines[:k])}")
                     outs.append(impl_line(fmt, lines[:k])[0])
                     nontriv.append(True)
